@@ -56,6 +56,10 @@ def run_canaries(canaries, modules):
 def standard_run(prop, tier, seed, level, modules, pred, canaries=(), e_checks=(), b_checks=(), explanation="",
                  only=None, notes=()):
     rep = runner.Report(prop, tier, seed, level)
+    from pyvc import sym as _S
+    broken = _S.selftest_axioms()      # the string axioms are claims about CPython: re-checked (every code point) on every run
+    if broken:
+        rep.errors.append(("axiom-selftest", f"{len(broken)} axiom instance(s) false in this CPython: {broken[:5]}"))
     load_contracts(modules)
     jobs = select(pred)
     if only:
